@@ -6,6 +6,7 @@ import warnings
 
 import codec_oracles as O
 import common
+import compudop_lib as CD
 import malformed as M
 from odxgen import desc as D
 from odxgen import gen as G
@@ -21,7 +22,13 @@ RULE = ("direct oracle (model-free fuzz): for every generated description (odxge
         "own encodings, every proper prefix of them, single-byte mutations, deletions, extensions, all strings of length <= 2 (quick) / 3 "
         "(thorough) over {00,01,7f,80,ff} + the constants of the description, random strings; static fields whose items have an "
         "input-dependent size (leading-length / min-max / param-length) and length keys behind identical / signed / LINEAR DOPs are enumerated "
-        "with every byte position mutated; corpus, enumerated families and every second random document (all in the thorough tier) are decoded "
+        "with every byte position mutated; a DOP behind a compu method of every category (IDENTICAL, LINEAR, SCALE-LINEAR, TAB-INTP, RAT-FUNC, "
+        "SCALE-RAT-FUNC, TEXTTABLE, COMPUCODE; all 16 pairs of numeric internal / physical types) as a parameter of a request / response, inside a "
+        "structure, an END-OF-PDU-FIELD item and as DTC-DOP: the enumerated small scope of rational functions (15 denominators x 3 numerators x 7 "
+        "placements of the scale limits against the pole, resp. 4 splits into two scales: 6 084 descriptions; quick 160 sampled) plus generated ones "
+        "(compu_lib; 160 / 1 200) plus LINEAR with COMPU-DENOMINATOR 0 (30 / 90; the codec model follows these: also correspondence inputs), each decoded at every coded value that matters for it (every zero of a denominator inside the window of the coded "
+        "type, every scale limit, their neighbours, the extremes of the coded type, NaN / infinities / extreme magnitudes for float objects; "
+        "thorough: the whole 8-bit window for 240 of them) and at the truncations of such PDUs; corpus, enumerated families and every second random document (all in the thorough tier) are decoded "
         "in strict mode and again in lenient mode (strict_mode = False; termination and exception class only). Failing input = any exception not derived from "
         "DecodeError, a hang (5 s alarm), a proper prefix that cuts a described object of a static layout and is not rejected, or a result "
         "whose re-encoding needs bytes the input did not have. distinct = distinct (description or layer entry point, byte string); "
@@ -35,6 +42,10 @@ ASSUMPTIONS = ["model totality by construction (Lean functions are total; loops 
                "'the library's decode error' = DecodeError and its subclass DecodeMismatch; a plain OdxError or EncodeError escaping from decode is a violation",
                "trailing bytes behind the last described object may be ignored by a Request/Response/Structure decode (the statement does not forbid it)",
                "descriptions are well-formed (odxgen envelope): field items have positive length except in the corpus witnesses",
+               "compu methods are well-formed (compudop_lib.well_formed): scales carry their coefficients / constants, a limit without value is "
+               "INFINITE, a constant COMPU-DENOMINATOR is not 0; a denominator *polynomial* may vanish at coded values inside the limits of its "
+               "scale (e.g. rpm = 60000 / period without a lower limit) -- such a coded value has to be rejected with the decode error; a DTC-DOP "
+               "may use any numeric compu method with an unsigned coded type and physical type A_UINT32",
                "OdxWarnings/DecodeError *warnings* (coded constant mismatch) are not exceptions",
                "lenient mode (strict_mode = False) is meant to complete damaged PDUs with substitute values: there only 'terminates' and 'no other "
                "exception type escapes' are evaluated; PARAM-LENGTH-INFO objects of a float base type are not generated (a key other than 32/64 "
@@ -181,17 +192,33 @@ class Run:
         self.rep = O.Reporter(ctx, max_shrinks=8)
         M.guarded(ctx)
         self.corr = M.CoarseCorrespondence(ctx, canon=canon05)
+        self._sx = {}
+
+    def sx(self, comp):
+        """(s-expression of the description, is it sent to the model) -- computed once per description object (a description is
+        decoded at hundreds of byte strings; it is never changed in place)"""
+        e = self._sx.get(id(comp))
+        if e is None or e[0] is not comp:
+            if len(self._sx) > 256:
+                self._sx.clear()
+            s = sexp.composite(comp)
+            e = self._sx[id(comp)] = (comp, s, "(other)" not in s)
+        return e[1], e[2]
 
     def case(self, comp, obj, msg, family, need=None, trig=None, padding=True, invention=True, fixed_features=None, what=None, shrink=True, corr=True,
              lenient=True):
         ctx = self.ctx
         r, dec = c05_eval(comp, obj, msg, need, trig, padding, invention)
-        ctx.case((sexp.composite(comp), bytes(msg)), nontrivial=family != "own")
+        sx, modelled = self.sx(comp)
+        ctx.case((sx, bytes(msg)), nontrivial=family != "own")
         ctx.histo("bytes_family", family)
         ctx.histo("outcome", dec.status.split(":")[0])
         ctx.histo("length", len(msg) if len(msg) < 8 else "8+")
-        if corr:
-            self.corr.add(family, comp, sexp.decode_line(comp, msg), O.reply_decode(dec) if dec.status != "hang" else "(err foreign)")
+        if corr and modelled:
+            # = sexp.decode_line(comp, msg), with the description's text taken from the cache
+            self.corr.add(family, None, f"(decode {sx} {sexp.hx(msg)} (strict {sexp._b(True)}))", O.reply_decode(dec) if dec.status != "hang" else "(err foreign)")
+        elif corr and self.corr.enabled:
+            ctx.count("corr_not_forwarded(other-compu)")
         if r:
             self.rep.report(r[0], r[1], comp, {"pdu": bytes(msg).hex()}, None, {**r[2], "pdu": bytes(msg).hex(), "family": family},
                             failing=c05_failing(r[0], r[1]) if shrink else None, fixed_features=fixed_features,
@@ -199,7 +226,7 @@ class Run:
         if lenient:
             # the same byte string in lenient mode: "no other exception type escapes" holds for every mode of the library
             r2, dec2 = c05_eval(comp, obj, msg, strict=False)
-            ctx.case((sexp.composite(comp), bytes(msg), "lenient"), nontrivial=family != "own")
+            ctx.case((sx, bytes(msg), "lenient"), nontrivial=family != "own")
             ctx.histo("outcome_lenient", dec2.status.split(":")[0])
             if r2:
                 ff = None if fixed_features is None else list(fixed_features) + ["lenient"]
@@ -259,6 +286,13 @@ def corpus():
     dl0 = D.DynLenField(4, 0, None, u8(32), D.Struct([]))
     out.append(("dyn-length-field-empty-item", rq(val("f", dl0)), ["22ffffffff", "2200100000", "2200000003", "2200000000", "22000000"],
                 ["dyn-length-field", "item-consumes-nothing"]))
+    # a coded value at which the compu method is not defined: the zero of the denominator of a rational function, inside the
+    # limits of its scale (round 5; in a DATA-OBJECT-PROP and in a DTC-DOP -- the latter was a defect: ZeroDivisionError)
+    inv = {"cat": "RAT-FUNC", "ity": "A_UINT32", "pty": "A_UINT32", "p2i": None,
+           "i2p": {"scales": [{"lo": None, "hi": None, "num": [["i", 60000]], "den": [["i", 0], ["i", 1]]}], "default": None}}
+    for context in ("param", "dtc-dop"):
+        c, _info = CD.composite_of(inv, "RQ", context, width=16)
+        out.append((f"ratfunc-pole-{context}", c, ["22000001", "22000101", "2200ff01", "220000", "22"], ["compu-dop", "context:" + context]))
     lead = D.SimpleDop(D.Leading("A_BYTEFIELD", 16), "A_BYTEFIELD")
     out.append(("leading-length-beyond-pdu", rq(val("b", lead)), ["22ffff", "22ffff00", "220001"], ["leading", "length-beyond-pdu"]))
     return out
@@ -405,6 +439,78 @@ def somersault_family(ctx, big):
                 check(dl.short_name, "Response.decode", gnr.short_name, gnr.decode, (b,), b)
 
 
+# ------------------------------------------------------------------ DOPs behind every compu category
+def compu_dop_family(run_, ctx, big):
+    """a DOP whose compu method is of any of the eight categories (compudop_lib: the enumerated small scope of rational functions
+    with their poles placed against the scale limits + compu_lib's generators), inside a request / response / structure /
+    end-of-PDU field / DTC-DOP, decoded at every coded value that matters for the description: each zero of a denominator,
+    each scale limit, their neighbours, the extremes of the coded type, the non-finite float patterns -- and the truncations
+    of such PDUs.  Strict and lenient mode; direct oracle only (the codec model calls these compu methods `(other)`)."""
+    rng = ctx.sub_rng("compu-dop")
+    work = [("enum-compu-pole", d) for d in CD.pole_descs()]
+    ctx.count("compu_dop_pole_descriptions_enumerated", len(work))
+    if not big:
+        # (a DTC-DOP needs an unsigned coded type and the physical type A_UINT32, 1/16 of the family: keep its share)
+        cap = [w for w in work if CD.dtc_capable(w[1])]
+        work = rng.sample(cap, 32) + rng.sample([w for w in work if not CD.dtc_capable(w[1])], 128)
+    n_random, k = (1200 if big else 160), 0
+    while n_random > 0 and k < 20000:
+        cat = CD.RANDOM_CATEGORIES[k % len(CD.RANDOM_CATEGORIES)]
+        k += 1
+        d = CD.random_desc(rng, cat, rng.choice(CD.NUM_TYPES), rng.choice(CD.NUM_TYPES))
+        if d is None:
+            ctx.count("compu_dop_draws_not_well_formed")
+            continue
+        work.append(("compu-dop-random", d))
+        n_random -= 1
+    full_window = set(rng.sample(range(len(work)), 240)) if big else set()      # decoded at all 256 values of an 8-bit coded type
+    items = []
+    for i, (family, d) in enumerate(work):
+        context = "dtc-dop" if CD.dtc_capable(d) and i % 3 != 2 else CD.CONTEXTS[i % 4]
+        comp, info = CD.composite_of(d, f"K{i}", context, width=8 if i % 3 else 16, hl=None if i % 2 else False)
+        items.append((family, d, comp, info, i, False))
+    # LINEAR with COMPU-DENOMINATOR 0 (every coded value is a pole) in every context: followed by the codec model, so also compared
+    zd = [(d, lin, c) for d, lin in CD.zero_denominator_descs() for c in CD.CONTEXTS]
+    for n, (d, lin, context) in enumerate(zd if big else rng.sample(zd, 30)):
+        i = len(work) + n
+        comp, info = CD.composite_of(d, f"K{i}", context, width=8 if n % 2 else 16, compu=lin)
+        items.append(("enum-linear-zero-denominator", d, comp, info, i, True))
+    for j in range(0, len(items), 32):
+        chunk = items[j:j + 32]
+        L, err = O.safe_load([c for _, _, c, _, _, _ in chunk])
+        loaded = {}
+        if L is not None:
+            loaded = {c.name: L[c.name] for _, _, c, _, _, _ in chunk}
+        else:
+            for _, _, c, _, _, _ in chunk:          # one description the loader rejects must not hide the others
+                L1, err1 = O.safe_load(c)
+                if L1 is None:
+                    ctx.count("documents_rejected_by_loader")
+                    ctx.histo("compu_dop_rejected", err1[:60])
+                else:
+                    loaded[c.name] = L1[c.name]
+        for family, d, comp, info, i, followed in chunk:
+            obj = loaded.get(comp.name)
+            if obj is None:
+                continue
+            ctx.count("documents_loaded")
+            ctx.histo("family", family)
+            ctx.histo("compu_dop_category", d["cat"])
+            ctx.histo("compu_dop_context", info["context"])
+            ctx.histo("compu_dop_types", f"{d['ity']}->{d['pty']}")
+            need = slot_need(comp)
+            feats = ["compu-dop", "context:" + info["context"]]
+            for fam, b in CD.byte_strings(rng, d, info, i in full_window):
+                ctx.histo("compu_dop_bytes", fam)
+                run_.case(comp, obj, b, fam, need, None, True, invention=False, fixed_features=feats, shrink=False, corr=followed,
+                          lenient=big or fam.startswith("coded-"),
+                          what=f"{family}: DOP behind a {d['cat']} compu method ({d.get('family') or 'generated'}; {d['ity']} -> {d['pty']}, "
+                               f"{info['context']}) on {b.hex() or '-'} ({fam})")
+        if j % 256 == 224:
+            run_.corr.flush()
+    run_.corr.flush()
+
+
 # ------------------------------------------------------------------ generated descriptions
 def run_doc(run, comp, family, rng, big, lenient=True):
     ctx = run.ctx
@@ -481,6 +587,8 @@ def run(ctx):
         for fam, b, k in M.byte_strings(rng, own, alpha, maxlen=2, n_random=12, n_mut=48, small_cap=60):
             run_.case(c, L[c.name], b, fam, None, None, True, invention=False)
     run_.corr.flush()
+    # (c'') DOPs behind every compu category (rational functions with poles, piecewise and interpolated functions, float objects)
+    compu_dop_family(run_, ctx, big)
     # (d) random composites
     n_docs = 4200 if big else 1000
     for i in range(n_docs):
